@@ -55,3 +55,62 @@ def o8_5_confirm(v, out):
     if out.get('_rc') != 0: return (False, 'native run failed: %s' % out.get('_stderr', '')[-300:])
     bad = [k for k in ('small', 'big') if out.get(k + '_put') == 'ok' and out.get(k + '_get') == 'missing']
     return (bool(bad), 'native: group log write failed (%s injected failures): puts %s / %s, reads %s / %s' % (out.get('injected_failures'), out.get('small_put'), out.get('big_put'), out.get('small_get'), out.get('big_get')))
+
+
+def o5_4_first_writer_identity(mir, tier):
+    """DB::is_first_writer over a writer queue whose two writers carry EQUAL requests (both "no batch", same synchronous flag - e.g.
+    two concurrent forced flushes - or the queue is empty / holds only the asking writer).  Writers are heap cells; `Arc::ptr_eq`
+    compares cells, `==` on writers runs the real `<Writer as PartialEq>::eq`.  Reference: true exactly when the asking writer IS
+    the writer at the head of the queue - a second writer with equal contents is not the leader (two leaders would reuse the
+    same sequence numbers and acknowledge each other's writes)."""
+    fn = mir.method('DB', 'is_first_writer')
+    res = Result('O5.4 DB::is_first_writer means identity with the queue head', [fn.path, '<Writer as PartialEq>::eq (reached only if writers are compared by value)'],
+                 'queues: empty, [asker], [other, asker], [asker, other] where other carries an equal request; synchronous flags free')
+    t0 = time.time()
+    gf = mir.struct_fields('GuardedDbFields')
+    sync = Bool('synchronous')
+    for shape in ('empty', 'alone', 'second', 'first'):
+        S = lib.std_summaries(); P = S['$patterns']
+        lib.combinator_summaries(P)
+        P[r'<parking_lot::lock_api::MutexGuard<.*> as Deref(?:Mut)?>::deref(?:_mut)?'] = lib.ptr_deref
+        def front(se, env, pc, q):
+            l = q
+            while isinstance(l, Ref): l = se.deref(env, l)
+            return lib.one(env, Enum('Some', (l[0],)) if l else Enum('None'))
+        P[r'VecDeque::front'] = front
+        def val(se, env, x):
+            k = 0
+            while isinstance(x, Ref) and not str(x.local).startswith('$writer') and k < 8: x = lib.get_at(env[x.local], x.path); k += 1
+            return x
+        def same_cell(x, y): return isinstance(x, Ref) and isinstance(y, Ref) and x.local == y.local and tuple(x.path) == tuple(y.path)
+        P[r'Arc::ptr_eq'] = lambda se, env, pc, a, b: lib.one(env, BoolVal(same_cell(val(se, env, a), val(se, env, b))))
+        weq = mir.method('Writer', 'eq', 'PartialEq')
+        from ..exec import Delegate
+        P[r'<Arc<Writer> as PartialEq>::eq'] = lambda se, env, pc, a, b: Delegate(weq, [val(se, env, a), val(se, env, b)], lambda r: r, merge=True)
+        P[r'<&Arc<Writer> as PartialEq>::eq'] = P[r'<Arc<Writer> as PartialEq>::eq']
+        P[r'<Option<Batch> as PartialEq>::eq'] = lambda se, env, pc, a, b: lib.one(env, BoolVal(True))       # both requests carry no batch
+        P[r'(?:std|core)::ptr::eq'] = lambda se, env, pc, a, b: lib.one(env, BoolVal(lib.base_ref(se, env, a).local == lib.base_ref(se, env, b).local) if isinstance(a, Ref) and isinstance(b, Ref) else BoolVal(a is b))
+        mk = lambda: mir.mk_struct('Writer', maybe_batch=Enum('None'), synchronous_write=sync, inner={'inner': True}, thread_signaller='cv')
+        queue = {'empty': [], 'alone': [Ref('$writer_a')], 'second': [Ref('$writer_b'), Ref('$writer_a')], 'first': [Ref('$writer_a'), Ref('$writer_b')]}[shape]
+        g = mir.mk_struct('GuardedDbFields', writer_queue=list(queue))
+        ex = Exec(mir, S, loop_bound=3)
+        want = shape in ('alone', 'first')
+        def k(ret, env, pc, ex=ex, shape=shape, want=want):
+            posts = [('is_first_writer does not answer "is this very writer at the head of the queue" (a writer queued behind one with an equal request believes it is the leader: two active writers)', ret == BoolVal(want) if not isinstance(ret, bool) else BoolVal(ret == want))]
+            res.cases['queue %s -> expected %s' % (shape, want)] = 1
+            for label, post, m in ex.check_posts(posts, pc):
+                res.violations.append({'label': label, 'queue': shape, 'replay': ['identical_concurrent_writes']})
+        env = {'$state': {}, '$db': {'abstract': True, '__ty': 'DB'}, '$g': g, '$guard': Ref('$g'), '$writer_a': mk(), '$writer_b': mk(), '$asker': Ref('$writer_a')}
+        ex.top(fn, [Ref('$db'), Ref('$guard'), Ref('$asker')], env, [], k)
+        res.absorb(ex)
+    res.wall_s = time.time() - t0
+    if res.violations: res.status = 'violation'
+    return res
+
+
+def o5_4_confirm(v, out):
+    """Native: writer A is parked after its log append (forced schedule) while writer B issues the identical put; then a third write; the
+    three writes must have used three consecutive sequence numbers and nothing may panic."""
+    if out.get('_timeout'): return (True, 'native: the writers did not finish within the watchdog time')
+    if out.get('_rc') != 0: return (True, 'native run panicked: %s' % out.get('_stderr', '')[-300:].replace('\n', ' | '))
+    return (out.get('sequence_numbers_used') != '3' or out.get('both_ok') != 'true', 'native: two identical concurrent puts and one later put used %s sequence numbers; both identical puts acknowledged: %s' % (out.get('sequence_numbers_used'), out.get('both_ok')))
